@@ -27,6 +27,8 @@ type Case struct {
 	// TFPkg / TFDir: name and directory (below the case) of the target package in the separate
 	// layout ("" = tfschema / the package name).
 	TFPkg, TFDir string
+	// ShortDefaultPkg: the short default_package_name used by the "short+override" variant ("" = structs)
+	ShortDefaultPkg string
 	// ProtoPkgSuffix is appended to the proto package (the case id), e.g. ".v1": protoc-gen-gogo
 	// then derives a Go package name with an underscore from it.
 	ProtoPkgSuffix string
@@ -67,6 +69,8 @@ func ValueTypes() []VT {
 		VT{"stddurNonNull", "duration", func(f *dsl.Field) { f.T = dsl.Msg; f.Ref = dsl.Duration; f.StdDur = true; nn(f) }, true, true, false},
 		VT{"int64stddur", "duration", func(f *dsl.Field) { f.T = dsl.Int64; f.StdDur = true }, true, false, true},
 		VT{"castDuration", "cast", func(f *dsl.Field) { f.T = dsl.Int64; f.CastType = "Duration" }, true, false, true},
+		VT{"castDurationSint", "cast", func(f *dsl.Field) { f.T = dsl.Sint64; f.CastType = "Duration" }, true, false, true},
+		VT{"castDurationSfixed", "cast", func(f *dsl.Field) { f.T = dsl.Sfixed64; f.CastType = "Duration" }, true, false, false},
 		VT{"castString", "cast", func(f *dsl.Field) { f.T = dsl.String; f.CastType = "MyString" }, true, false, true},
 		VT{"castInt", "cast", func(f *dsl.Field) { f.T = dsl.Int32; f.CastType = "MyInt" }, true, false, true},
 		VT{"castForeignFloat", "cast", func(f *dsl.Field) { f.T = dsl.Double; f.CastType = dsl.TFX + ".Duration" }, true, false, true},
@@ -787,6 +791,21 @@ func F4() []*Case {
 		{Name: "Tail", Num: 2, T: dsl.String},
 	}}
 	out = append(out, &Case{Label: "F4/nested-nullable-embeds", Family: "F4", Tags: map[string]string{"card": "embed", "vt": "nested-nullable-embeds", "class": "embedded", "pos": "P6>P6"}, File: newFile(deepRoot, deepMid, deepInner), Cfg: BaseConfig("Root")})
+	for _, combo := range [][2]bool{{false, false}, {false, true}, {true, false}} {
+		// outer embed nullable?, inner embed nullable?  (both nullable: F4/nested-nullable-embeds)
+		in := *deepInner
+		in.Name = "EInner"
+		mid := &dsl.Message{Name: "EMid", Fields: []*dsl.Field{
+			{Name: "EInner", Num: 1, T: dsl.Msg, Ref: "EInner", Embed: true, Nullable: dsl.B(combo[1])},
+			{Name: "MidName", Num: 2, T: dsl.String},
+		}}
+		root := &dsl.Message{Name: "Root", Fields: []*dsl.Field{
+			{Name: "EMid", Num: 1, T: dsl.Msg, Ref: "EMid", Embed: true, Nullable: dsl.B(combo[0])},
+			{Name: "Tail", Num: 2, T: dsl.String},
+		}}
+		nm := map[bool]string{false: "val", true: "ptr"}
+		out = append(out, &Case{Label: "F4/embed-in-embed/" + nm[combo[0]] + ">" + nm[combo[1]], Family: "F4", Tags: map[string]string{"card": "embed", "vt": "embed-in-embed-" + nm[combo[0]] + "-" + nm[combo[1]], "class": "embedded", "pos": "P6>P6"}, File: newFile(root, mid, &in), Cfg: BaseConfig("Root")})
+	}
 	out = append(out, &Case{Label: "F4/value-named-siblings", Family: "F4", Tags: map[string]string{"card": "map", "vt": "value-named-siblings", "class": "scalar", "pos": "P0"}, File: newFile(named, sample, blob), Cfg: BaseConfig("Root")})
 	return out
 }
@@ -904,6 +923,10 @@ func Variant(c *Case, sortOn bool, separate bool, mix string) *Case {
 				n.Cfg.Validators[k] = []string{fmt.Sprintf("%s.V(%d)", dsl.TFX, i)}
 			}
 		}
+	case "usu":
+		// every path computed, no explicit plan modifiers, the default UseStateForUnknown switch on
+		n.Cfg.Computed = append(n.Cfg.Computed, paths...)
+		n.Cfg.UseStateForUnknown = true
 	case "typenames":
 		// overrides keyed by Message.Field
 		n.Cfg.NameOverrides = map[string]string{}
@@ -924,6 +947,7 @@ func F5File() *dsl.File {
 	}
 	alpha := &dsl.Message{Name: "Alpha", Comment: " Alpha is the first root", Fields: []*dsl.Field{
 		{Name: "Name", Num: 1, T: dsl.String, Comment: " Name of alpha"},
+		{Name: "Namespace", Num: 8, T: dsl.String, Comment: " Namespace of alpha (its name starts with the name of Name)"},
 		msg("Meta", 2, "Shared"),
 		{Name: "Items", Num: 3, T: dsl.Msg, Ref: "Shared", Card: dsl.Repeated, Nullable: dsl.B(false)},
 	}}
@@ -946,6 +970,7 @@ func F5File() *dsl.File {
 		{Name: "ID", Num: 1, T: dsl.String, Comment: " ID of the thing"},
 		f("Label", 2, dsl.String),
 		msg("Tiny", 3, "Tiny"),
+		{Name: "IDs", Num: 4, T: dsl.String, Card: dsl.Repeated, Comment: " IDs (its name starts with the name of ID)"},
 	}}
 	tiny := &dsl.Message{Name: "Tiny", Fields: []*dsl.Field{f("On", 1, dsl.Bool), f("N", 2, dsl.Int32)}}
 	stamp := &dsl.Message{Name: "Stamp", Comment: " Stamp is embedded in a root and in a nested message", Fields: []*dsl.Field{
